@@ -13,6 +13,7 @@ import (
 	"net/http/httptest"
 	"os"
 	"path/filepath"
+	"regexp"
 	"strconv"
 	"strings"
 	"sync"
@@ -72,10 +73,23 @@ func durableURL(chunk int) string {
 // behind a proxy / the server was restarted after committing).
 var lostAck sync.Map // stream name -> *atomic.Int32
 
+var (
+	strictOffsets sync.Map // stream name -> true: read offsets are validated
+	validOffset   = regexp.MustCompile(`^(-1|[0-9A-Za-z_]+)$`)
+)
+
 func lostAckProxy(next http.Handler) http.Handler {
 	return http.HandlerFunc(func(w http.ResponseWriter, r *http.Request) {
+		name := r.URL.Path[strings.LastIndex(r.URL.Path, "/")+1:]
+		if _, strict := strictOffsets.Load(name); strict && r.Method == http.MethodGet {
+			// a server that validates read offsets: absent, "-1" or a numeric token it handed out (the
+			// bare reference handler parses with Sscanf("%d") and ignores trailing text)
+			if off := r.URL.Query().Get("offset"); off != "" && !validOffset.MatchString(off) {
+				http.Error(w, "invalid offset", http.StatusBadRequest)
+				return
+			}
+		}
 		if r.Method == http.MethodPost {
-			name := r.URL.Path[strings.LastIndex(r.URL.Path, "/")+1:]
 			if v, ok := lostAck.Load(name); ok && v.(*atomic.Int32).Add(-1) >= 0 {
 				rec := httptest.NewRecorder()
 				next.ServeHTTP(rec, r)
@@ -162,6 +176,9 @@ func Open(kind, scratch string) (*Opened, error) {
 			return nil, err
 		}
 		o := &Opened{Kind: kind, Store: s, Close: func() {}}
+		if strings.Contains(kind, "strict") {
+			strictOffsets.Store(name, true)
+		}
 		ctr := &atomic.Int32{}
 		lostAck.Store(name, ctr)
 		o.LostAckNext = func(n int) { ctr.Store(int32(n)) }
